@@ -30,5 +30,6 @@ static inline unsigned long long vf_ghost(const char *name, int *found) {
 #endif
 
 /* carve-out of an open known finding: active only while known_findings.txt lists id as open */
+#define REACH_OK do { } while (0)
 #define KF_ON(id) (defined(KF_##id))
 #endif
